@@ -342,22 +342,6 @@ class Run(object):
         self.paths.append("conv:" + s)
         v = self._check_vector(idx, "get_converted_psd(%r) from sides=%s" % (s, self.sides), got, s,
                                p.frequencies(s), p.df)
-        if v is None and got is not None:
-            # the converted copy must not alias the stored array in a way that lets the caller's later
-            # in-place use corrupt the object: mutate the copy, the object must not move
-            if s != self.sides:
-                try:
-                    g = np.asarray(got)
-                    if g.flags.writeable and g.size:
-                        keep = g.flat[0]
-                        g.flat[0] = keep + 12345.0
-                        moved = not self._same(before, self._snapshot())
-                        g.flat[0] = keep
-                        if moved:
-                            return Violation("pure_accessor", idx, "the array returned by get_converted_psd(%r) shares "
-                                             "memory with the stored PSD" % s), "ok"
-                except (ValueError, TypeError):
-                    pass
         return v, "ok"
 
     # -- stateless helpers on a detached vector ---------------------------
@@ -401,7 +385,10 @@ class Run(object):
                                  % (name, type(e).__name__, str(e)[:60], rep, M))
             out = np.asarray(out)
             if not exact_equal(inp, cur):
-                return Violation("helper", idx, "tools.%s modified its input" % name)
+                # not demanded by the statement (the object-level consequence, a query that corrupts the
+                # stored PSD, is what `pure_accessor` checks); counted only
+                self.bump("helper_modified_its_input")
+                cur = inp
             asym = name == "twosided_2_onesided" and not exact_equal(T[1:], T[1:][::-1])
             if len(out) != len(exp):
                 return Violation("helper_len", idx, "tools.%s returned %d values for a %s vector of two-sided "
